@@ -139,6 +139,11 @@ impl<R: Read> Read for AesReaderValid<R> {
     /// practically unusable, since its position after the error is not known.
     fn read(&mut self, buf: &mut [u8]) -> io::Result<usize> {
         if self.data_remaining == 0 {
+            // (An entry without any ciphertext still carries an authentication code: end-of-file is
+            // only reported once it has been checked.)
+            if !self.finalized {
+                self.check_auth_code()?;
+            }
             return Ok(0);
         }
 
@@ -146,6 +151,13 @@ impl<R: Read> Read for AesReaderValid<R> {
         // 2^32 bytes even on 32 bit systems.
         let bytes_to_read = self.data_remaining.min(buf.len() as u64) as usize;
         let read = self.reader.read(&mut buf[0..bytes_to_read])?;
+        if read == 0 && bytes_to_read > 0 {
+            // The ciphertext ends before its declared length: that is not a clean end-of-file.
+            return Err(io::Error::new(
+                io::ErrorKind::UnexpectedEof,
+                "Encrypted data ends before the authentication code",
+            ));
+        }
         self.data_remaining -= read as u64;
 
         // Update the hmac with the encrypted data
@@ -156,30 +168,39 @@ impl<R: Read> Read for AesReaderValid<R> {
 
         // if there is no data left to read, check the integrity of the data
         if self.data_remaining == 0 {
-            assert!(
-                !self.finalized,
-                "Tried to use an already finalized HMAC. This is a bug!"
-            );
-            self.finalized = true;
-
-            // Zip uses HMAC-Sha1-80, which only uses the first half of the hash
-            // see https://www.winzip.com/win/en/aes_info.html#auth-faq
-            let mut read_auth_code = [0; AUTH_CODE_LENGTH];
-            self.reader.read_exact(&mut read_auth_code)?;
-            let computed_auth_code = &self.hmac.finalize_reset().into_bytes()[0..AUTH_CODE_LENGTH];
-
-            // use constant time comparison to mitigate timing attacks
-            if !constant_time_eq(computed_auth_code, &read_auth_code) {
-                return Err(
-                    io::Error::new(
-                        io::ErrorKind::InvalidData,
-                        "Invalid authentication code, this could be due to an invalid password or errors in the data"
-                    )
-                );
-            }
+            self.check_auth_code()?;
         }
 
         Ok(read)
+    }
+}
+
+impl<R: Read> AesReaderValid<R> {
+    /// Reads the authentication code that follows the ciphertext and compares it with the one
+    /// computed over the ciphertext that was read.
+    fn check_auth_code(&mut self) -> io::Result<()> {
+        assert!(
+            !self.finalized,
+            "Tried to use an already finalized HMAC. This is a bug!"
+        );
+        self.finalized = true;
+
+        // Zip uses HMAC-Sha1-80, which only uses the first half of the hash
+        // see https://www.winzip.com/win/en/aes_info.html#auth-faq
+        let mut read_auth_code = [0; AUTH_CODE_LENGTH];
+        self.reader.read_exact(&mut read_auth_code)?;
+        let computed_auth_code = &self.hmac.finalize_reset().into_bytes()[0..AUTH_CODE_LENGTH];
+
+        // use constant time comparison to mitigate timing attacks
+        if !constant_time_eq(computed_auth_code, &read_auth_code) {
+            return Err(
+                io::Error::new(
+                    io::ErrorKind::InvalidData,
+                    "Invalid authentication code, this could be due to an invalid password or errors in the data"
+                )
+            );
+        }
+        Ok(())
     }
 }
 
